@@ -1,6 +1,6 @@
 SPECIFICATION Spec
 CONSTANTS
-  MaxLen = 5
+  MaxLen = 6
   MaxDepth = 3
   Names = {"a", "b"}
 INVARIANTS StackOK Agree ForwardOutward EmitCase
